@@ -44,16 +44,29 @@ B64 = b'To: user8@example.com\nX-Id: 8\nSubject: enc\nContent-Transfer-Encoding:
 class Spec:
     """A scenario description: name, config template, patterns, tree, options."""
 
-    def __init__(self, name, conf, pats=(), tree=None, devmap=(), stdin=None, args=(), kind='maildir', env=None):
+    def __init__(self, name, conf, pats=(), tree=None, devmap=(), stdin=None, args=(), kind='maildir', env=None, stdin_file=False):
         self.name, self.conf, self.pats, self.tree, self.devmap = name, conf, list(pats), tree or base_tree(), tuple(devmap)
-        self.stdin, self.args, self.kind, self.env = stdin, list(args), kind, env or {}
+        self.stdin, self.args, self.kind, self.env, self.stdin_file = stdin, list(args), kind, env or {}, stdin_file
 
     def build(self, tools):
         conf = self.conf.replace('@HELPER@', tools.helper)
-        return proc.Scenario(tools, conf, self.tree, stdin=self.stdin, args=self.args, devmap=self.devmap, env=self.env)
+        return proc.Scenario(tools, conf, self.tree, stdin=self.stdin, args=self.args, devmap=self.devmap, env=self.env,
+                             stdin_file=self.stdin_file)
 
 
-def corpus():
+def text_body(n, tag=b'body'):
+    """A body of exactly n bytes (n >= 2) made of distinct numbered lines: a cut, a repeated or a shifted block is visible."""
+    out, size, i = [], 0, 0
+    while size < n:
+        l = b'%s line %06d: the quick brown fox jumps over the lazy dog\n' % (tag, i)
+        out.append(l)
+        size += len(l)
+        i += 1
+    return b''.join(out)[:n - 1] + b'\n'
+
+
+def corpus(big=False):
+    """big=True: also the scenarios with messages of several I/O buffers (fault sweeps over them are longer)."""
     R = '@R@'
     S = []
     S.append(Spec('move', 'maildir "%s/src" {\n\tmatch header "To" /user/ move "%s/dst"\n}\n' % (R, R), [('user', '')]))
@@ -81,14 +94,20 @@ def corpus():
     S.append(Spec('stdin-exdev', 'stdin {\n\tmatch all move "%s/dst"\n}\n' % R, tree=st, stdin=msg(5), args=['-'], kind='stdin', devmap=('%s/tmp' % R,)))
     S.append(Spec('stdin-discard', 'stdin {\n\tmatch header "X-Id" /5/ discard\n}\n' % (), [('5', '')], tree=st, stdin=msg(5), args=['-'], kind='stdin'))
     S.append(Spec('stdin-reject', 'stdin {\n\tmatch header "X-Id" /5/ reject\n\tmatch all move "%s/dst"\n}\n' % R, [('5', '')], tree=st, stdin=msg(5), args=['-'], kind='stdin'))
+    # a message of several read/write buffers: the spool loop of maildir_stdin runs more than once (a retry, a short count or a failure in a
+    # later round must not repeat, drop or shift bytes); standard input is a regular file so that every read returns a full buffer
+    if big:
+        S.append(Spec('stdin-big', 'stdin {\n\tmatch all move "%s/dst"\n}\n' % R, tree=st, stdin=msg(4, body=text_body(20000)), args=['-'],
+                      kind='stdin', stdin_file=True))
     return S
 
 
-# errno table per call name (Appendix C of DESIGN.md); the first entries are used in the quick tier
+# errno table per call name (Appendix C of DESIGN.md); the first entries are used in the quick tier (see errnos())
 ERRNOS = {
     'opendir': ['EACCES', 'ENOENT', 'EMFILE', 'ENOMEM'], 'readdir': ['EIO', 'EBADF'],
     'openat': ['EIO', 'ENOSPC', 'EACCES', 'ENOENT', 'EMFILE', 'EDQUOT', 'EROFS'], 'open': ['EMFILE', 'ENOENT'],
-    'read': ['EIO', 'short'], 'write': ['ENOSPC', 'short', 'EIO', 'EDQUOT', 'shorthalf'],
+    # EINTR: a signal arrives before anything was transferred (read and write); EAGAIN: standard input is a non-blocking pipe or socket
+    'read': ['EIO', 'short', 'EINTR', 'EAGAIN'], 'write': ['ENOSPC', 'short', 'EINTR', 'EIO', 'EDQUOT', 'shorthalf', 'EFBIG'],
     'fprintf': ['ENOSPC'], 'fflush': ['EIO', 'ENOSPC'], 'fsync': ['EIO', 'ENOSPC'], 'fclose': ['EIO', 'ENOSPC'], 'close': ['EIO'],
     'fcntl': ['EMFILE'], 'fdopen': ['ENOMEM'], 'renameat': ['EIO', 'ENOENT', 'EACCES', 'ENOSPC'], 'unlinkat': ['EIO', 'ENOENT', 'EACCES', 'EROFS'],
     'unlink': ['EIO'], 'fstatat': ['EIO', 'ENOENT'], 'stat': ['EIO'], 'utimensat': ['EPERM', 'EROFS', 'EIO'],
@@ -96,6 +115,29 @@ ERRNOS = {
     'rmdir': ['ENOTEMPTY', 'EBUSY'], 'lseek': ['ESPIPE'], 'fork': ['EAGAIN', 'ENOMEM'], 'waitpid': ['ECHILD', 'EINTR'],
     'closedir': ['EIO'], 'fopen': ['ENOENT', 'EACCES'], 'rewinddir': [],
 }
+
+# "try again" results: programs treat them differently from hard errors (retry loops), so they are injected in every tier
+RETRY = {'read': ['EINTR'], 'write': ['EINTR']}
+# results that say "nothing happened, try again": a program may report them or repeat the call; after a repeat, exit status 0 with
+# the message intact at its final place is correct (the tree oracle still judges the content)
+TRANSIENT = ('EINTR', 'EAGAIN')
+
+
+def may_retry(name, spec):
+    return name in ('read', 'write') and spec in TRANSIENT
+
+
+def errnos(name, tier, quick_n=2):
+    """Fault specifications for one call: the whole table row in the thorough tier; in the quick tier its first `quick_n`
+    entries plus the row's "try again" results (EINTR)."""
+    row = ERRNOS.get(name, ['EIO'])
+    if tier != 'quick':
+        return list(row)
+    out = list(row[:quick_n])
+    for e in RETRY.get(name, []):
+        if e in row and e not in out:
+            out.append(e)
+    return out
 
 
 def maildir_files(snap):
